@@ -33,7 +33,7 @@ import (
 	"verif/internal/model"
 )
 
-const rule = "cases: constructor argument tuples for every structure that has both a constructor and a validator - Certificate (+builder), KeysAndCert, Destination, RouterIdentity, RouterAddress, RouterInfo, LeaseSet, LeaseSet2, EncryptedLeaseSet, OfflineSignature, Signature, Mapping - valid tuples and single-defect variants of the kinds the validators document (key length != its type's length, KeyLen != len(KeyData), 0/17 keys or leases, flag <-> offline block mismatch, reserved flag bits, signature or key length != type, unknown type, zero expires, empty transport style, wrong padding size, prohibited key type). Oracles: constructor ok => Validate()==nil; Validate()==nil (constructed or parsed) => Bytes() ok => Read* ok with empty remainder and the same bytes; defect => the constructor rejects, and the validator rejects the same defect when it is presented through the parser or exported fields. Expiry rules are excluded (far-future dates). Non-trivial: a defect variant, or a valid tuple with >= 2 optional parts; distinct by (kind, defect, arguments)."
+const rule = "cases: constructor argument tuples for every structure that has both a constructor and a validator - Certificate (+builder), KeysAndCert, Destination, RouterIdentity, RouterAddress, RouterInfo, LeaseSet, LeaseSet2, EncryptedLeaseSet, OfflineSignature, Signature, Mapping (also maps of 125..135 pairs whose encoded body lies within +-2000 bytes of the 65,535 limit, through GoMapToMapping, MappingValues.Add + ValuesToMapping and NewRouterAddress) - valid tuples and single-defect variants of the kinds the validators document (key length != its type's length at any key index, KeyLen != len(KeyData), 0/17 keys or leases, flag <-> offline block mismatch, reserved flag bits, signature or key length != type, unknown type, zero expires, empty transport style, wrong padding size, prohibited key type). Oracles: constructor ok => Validate()==nil; Validate()==nil (constructed or parsed) => Bytes() ok => Read* ok with empty remainder and the same bytes; defect => the constructor rejects, and the validator rejects the same defect when it is presented through the parser or exported fields. Expiry rules are excluded (far-future dates). Non-trivial: a defect variant, or a valid tuple with >= 2 optional parts; distinct by (kind, defect, arguments)."
 
 func TestMain(m *testing.M) { ev.Main(m, "C14", rule) }
 
@@ -125,13 +125,15 @@ func checkLS2(c Case, r *ev.Rec) error {
 		flags |= 1 << uint(3+c.N%13)
 		parserProbe = true
 	case "keylen-vs-type":
-		keys[0].KeyType, keys[0].KeyLen, keys[0].KeyData = 4, 31, model.Fill(31, 1)
+		i := (c.N / 2) % len(keys) // any position, not only the first key
+		keys[i].KeyType, keys[i].KeyLen, keys[i].KeyData = 4, 31, model.Fill(31, 1)
 		if c.N%2 == 1 {
-			keys[0].KeyType, keys[0].KeyLen, keys[0].KeyData = 0, 255, model.Fill(255, 1)
+			keys[i].KeyType, keys[i].KeyLen, keys[i].KeyData = 0, 255, model.Fill(255, 1)
 		}
 		parserProbe = true
+		r.Class(fmt.Sprintf("ls2:defect-at-key-index:%d", min(i, 2)))
 	case "keylen-vs-data":
-		keys[0].KeyLen++
+		keys[(c.N/2)%len(keys)].KeyLen++
 	case "no-keys":
 		keys = nil
 	case "17-keys":
@@ -172,7 +174,8 @@ func checkLS2(c Case, r *ev.Rec) error {
 			if c.Defect == "reserved-flag" {
 				m.Flags |= 1 << uint(3+c.N%13)
 			} else {
-				m.Keys[0] = model.EncKey{Type: int(keys[0].KeyType), Len: int(keys[0].KeyLen), Data: keys[0].KeyData}
+				i := (c.N / 2) % len(keys)
+				m.Keys[i] = model.EncKey{Type: int(keys[i].KeyType), Len: int(keys[i].KeyLen), Data: keys[i].KeyData}
 			}
 			if p, _, perr := lease_set2.ReadLeaseSet2(m.Encode()); perr == nil {
 				if p.Validate() == nil {
@@ -711,9 +714,93 @@ func checkLS(c Case, r *ev.Rec) error {
 	return nil
 }
 
+// bigMap: N selects the number of pairs (125..135), Typ the distance of the encoded
+// body from the 65,535-byte limit (may be negative). All strings stay within 255 bytes.
+func bigMap(c Case) (map[string]string, []model.Pair) {
+	n := 125 + c.N%11
+	target := 65535 + c.Typ
+	kl, vl := make([]int, n), make([]int, n)
+	total := 0
+	for i := range kl {
+		kl[i], vl[i] = 240, 240
+		total += 240 + 240 + 4
+	}
+	for i := 0; total != target && i < 64*n; i++ {
+		j := i % n
+		l := &kl[j]
+		if (i/n)%2 == 1 {
+			l = &vl[j]
+		}
+		switch {
+		case total < target && *l < 255:
+			*l++
+			total++
+		case total > target && *l > 3:
+			*l--
+			total--
+		}
+	}
+	m := map[string]string{}
+	for i := 0; i < n; i++ {
+		k := append([]byte{byte('a' + i/26), byte('a' + i%26), '.'}, model.Fill(kl[i]-3, uint64(i)+1)...)
+		m[string(k)] = string(model.Fill(vl[i], uint64(i)+500))
+	}
+	return m, model.PairsFromMap(m)
+}
+
+// checkMapping: the Mapping constructors and validators around the total-size limit.
+func checkMapping(c Case, r *ev.Rec) error {
+	m, pairs := bigMap(c)
+	body := model.MappingBodyLen(pairs)
+	over := body > 65535
+	mp, err := data.GoMapToMapping(m)
+	mv := data.NewMappingValues(len(pairs))
+	var aerr error
+	for _, p := range pairs {
+		if mv, aerr = mv.Add(string(p.K), string(p.V)); aerr != nil {
+			break
+		}
+	}
+	var mp2 *data.Mapping
+	var err2 error = aerr
+	if aerr == nil {
+		mp2, err2 = data.ValuesToMapping(mv)
+	}
+	_, err3 := router_address.NewRouterAddress(1, time.Unix(0, 0), "NTCP2", m)
+	if over {
+		r.Class("mapping:over-limit")
+		if err == nil || err2 == nil || err3 == nil {
+			return fmt.Errorf("a mapping of %d pairs whose encoded body is %d bytes (limit 65535) is accepted: GoMapToMapping err=%v, ValuesToMapping err=%v, NewRouterAddress err=%v", len(pairs), body, err, err2, err3)
+		}
+		r.NonTrivialStr(c, "mapping-over", fmt.Sprint(len(pairs), body))
+		return nil
+	}
+	r.Class("mapping:in-limit")
+	if err != nil || err2 != nil || err3 != nil {
+		return fmt.Errorf("a mapping of %d pairs whose encoded body is %d bytes (limit 65535) is rejected: GoMapToMapping err=%v, ValuesToMapping err=%v, NewRouterAddress err=%v", len(pairs), body, err, err2, err3)
+	}
+	for i, x := range []*data.Mapping{mp, mp2} {
+		if verr := x.Validate(); verr != nil {
+			return fmt.Errorf("constructor %d succeeded but Mapping.Validate() fails: %v", i, verr)
+		}
+		b := x.Data()
+		back, rem, errs := data.ReadMapping(b)
+		if len(errs) != 0 || len(rem) != 0 {
+			return fmt.Errorf("a validated mapping (%d pairs, body %d) does not parse back cleanly: %d errors (%v), remainder %d", len(pairs), body, len(errs), errs, len(rem))
+		}
+		if !bytes.Equal(back.Data(), b) || len(b) != body+2 {
+			return fmt.Errorf("a validated mapping (%d pairs, body %d) re-serialises to %d bytes after the wire (first serialisation %d)", len(pairs), body, len(back.Data()), len(b))
+		}
+	}
+	r.NonTrivialStr(c, "mapping-in", fmt.Sprint(len(pairs), body))
+	return nil
+}
+
 func check(c Case, r *ev.Rec) error {
 	r.Class("kind:" + c.Kind)
 	switch c.Kind {
+	case "mapping":
+		return checkMapping(c, r)
 	case "ls2":
 		return checkLS2(c, r)
 	case "els":
@@ -737,7 +824,7 @@ func check(c Case, r *ev.Rec) error {
 }
 
 func genCase(t *rapid.T) Case {
-	c := Case{Kind: rapid.SampledFrom([]string{"ls2", "ls2", "els", "offline", "signature", "cert", "ident", "addr", "ri", "ls"}).Draw(t, "kind")}
+	c := Case{Kind: rapid.SampledFrom([]string{"ls2", "ls2", "els", "offline", "signature", "cert", "ident", "addr", "ri", "ls", "mapping"}).Draw(t, "kind")}
 	c.N = rapid.IntRange(0, 1000).Draw(t, "n")
 	defect := func(ds ...string) string {
 		if rapid.Bool().Draw(t, "defective") {
@@ -770,6 +857,12 @@ func genCase(t *rapid.T) Case {
 		c.Defect = defect("zero-expires", "reserved-flag", "key-size", "unknown-sigtype", "inner-too-short", "flag-without-block", "block-without-flag")
 		if c.Defect == "flag-without-block" {
 			s.Offline = nil
+		}
+	case "mapping":
+		n := 125 + c.N%11
+		c.Typ = rapid.SampledFrom([]int{-700, -3, -2, -1, 0, 1, 2, 3, n, 2*n - 1, 2 * n, 2*n + 1, 3 * n, 4 * n, 700}).Draw(t, "delta")
+		if rapid.Bool().Draw(t, "anydelta") {
+			c.Typ = rapid.IntRange(-2000, 2000).Draw(t, "delta2")
 		}
 	case "offline":
 		c.Typ = int(gen.U32(t, "exp") & 0x7fffffff)
